@@ -1,3 +1,4 @@
 import Spec.Scan
 import Spec.Assign
 import Spec.Errors
+import Spec.Stores
